@@ -858,6 +858,138 @@ func negotiationReconnect(c *core.Ctx, r *core.Rand, i int) {
 	srv.Close()
 }
 
+// slowCloseConn: Close wakes the blocked reader first and returns a little later (a TLS close-notify, a lingering
+// socket): the read loop notices the closed connection before the caller of Close has finished.
+type slowCloseConn struct {
+	*memnet.Conn
+	delay time.Duration
+}
+
+func (s *slowCloseConn) Close() error {
+	err := s.Conn.Close()
+	time.Sleep(s.delay)
+	return err
+}
+
+// closeUnderCall: Close() while a call is in flight, on a transport whose Close is slow. The pending call fails, the
+// closed client does not dial again, later calls fail, nothing stays behind.
+func closeUnderCall(c *core.Ctx, r *core.Rand, i int) {
+	base := len(census.Goroutines())
+	w := newWorld(c, "none", 1<<30)
+	var dials atomic.Int64
+	dial := func(ctx context.Context) (net.Conn, error) {
+		conn, err := w.dialer(ctx)
+		if err != nil {
+			return nil, err
+		}
+		dials.Add(1)
+		return &slowCloseConn{Conn: conn.(*memnet.Conn), delay: time.Duration(10+r.Intn(50)) * time.Millisecond}, nil
+	}
+	cl, err := kmipclient.Dial("mem", kmipclient.WithDialerUnsafe(dial), kmipclient.EnforceVersion(kmip.V1_4))
+	if err != nil {
+		panic(err)
+	}
+	label := fmt.Sprintf("cuc%d", i)
+	for k, n := 0, r.Intn(3); k < n; k++ {
+		w.call(cl, fmt.Sprintf("%s-warm%d", label, k))
+	}
+	hold := make(chan struct{})
+	w.srv.Respond = func(rx script.Received, conn *memnet.Conn) *kmip.ResponseMessage {
+		<-hold
+		return nil
+	}
+	before := len(w.srv.Received())
+	done := make(chan outcome, 1)
+	go func() { done <- w.call(cl, label+"-pending") }()
+	for k := 0; k < 5000 && len(w.srv.Received()) == before; k++ {
+		time.Sleep(time.Millisecond)
+	}
+	dialsBefore := dials.Load()
+	core.Guard(func() { cl.Close() })
+	var o outcome
+	select {
+	case o = <-done:
+	case <-time.After(20 * time.Second):
+		c.Violation("C11:hang:close-under-call", "the pending call does not return within 20 s of Close ("+label+")", map[string]any{"goroutines": census.Goroutines()})
+		close(hold)
+		w.srv.Close()
+		return
+	}
+	close(hold)
+	c.Count("closes_under_a_call", 1)
+	if o.err == nil {
+		c.Violation("C11:call-survives-close", "a call whose response never came returns success after Close ("+label+")", nil)
+	}
+	after := w.call(cl, label+"-after-close")
+	if after.err == nil {
+		c.Violation("C11:call-after-close-succeeds:slow-close", "a call on a closed client succeeds ("+label+")", nil)
+	}
+	if d := dials.Load() - dialsBefore; d > 0 {
+		c.Violation("C11:closed-client-dials-again", fmt.Sprintf("after Close() under a pending call the closed client dialled %d more connection(s) (%s)", d, label), nil)
+	}
+	c.Distinct(core.Hash64("close-under-call", fmt.Sprint(i%7)))
+	core.Guard(func() { cl.Close() })
+	w.srv.Close()
+	leak(c, base, "close-under-call", label)
+}
+
+// stalledRedial: the connection is lost, and the dial that should replace it stalls (a dropped SYN). The caller's
+// deadline bounds the call all the same; afterwards, with the network back, the client recovers.
+func stalledRedial(c *core.Ctx, r *core.Rand, i int) {
+	base := len(census.Goroutines())
+	w := newWorld(c, "none", 1<<30)
+	var stall atomic.Bool
+	dial := func(ctx context.Context) (net.Conn, error) {
+		if stall.Load() {
+			<-ctx.Done() // a dialer that honours its context, as net.Dialer.DialContext does
+			return nil, ctx.Err()
+		}
+		return w.dialer(ctx)
+	}
+	cl, err := kmipclient.Dial("mem", kmipclient.WithDialerUnsafe(dial), kmipclient.EnforceVersion(kmip.V1_4))
+	if err != nil {
+		panic(err)
+	}
+	label := fmt.Sprintf("redial%d", i)
+	w.call(cl, label+"-warm")
+	// lose the connection, either while idle or under the call
+	for _, sc := range w.srv.Conns() {
+		sc.Close()
+	}
+	if i%2 == 0 {
+		time.Sleep(5 * time.Millisecond)
+	}
+	stall.Store(true)
+	ctx, cancel := context.WithTimeout(context.Background(), time.Duration(20+r.Intn(40))*time.Millisecond)
+	ret := make(chan error, 1)
+	go func() {
+		var err error
+		core.Guard(func() { _, err = cl.Activate(label + "-stalled-dial").ExecContext(ctx) })
+		ret <- err
+	}()
+	select {
+	case err := <-ret:
+		if err == nil {
+			c.Violation("C11:call-succeeds-without-connection", "a call returns success although no connection could be made ("+label+")", nil)
+		}
+	case <-time.After(15 * time.Second):
+		cancel()
+		c.Violation("C11:hang:stalled-redial", "a call whose reconnection dial stalls does not return at its deadline: 15 s after a deadline of at most 60 ms it is still waiting (every other caller of this client waits behind it)", map[string]any{"goroutines": census.Goroutines()})
+		stall.Store(false)
+		w.srv.Close()
+		return
+	}
+	cancel()
+	c.Count("stalled_redials", 1)
+	stall.Store(false)
+	w.kind = "stalled-redial"
+	w.judgeN(label, []outcome{w.call(cl, label+"-next1"), w.call(cl, label+"-next2"), w.call(cl, label+"-next3")}, 2)
+	c.Distinct(core.Hash64("stalled-redial", fmt.Sprint(i%2)))
+	core.Guard(func() { cl.Close() })
+	w.srv.Close()
+	leak(c, base, "stalled-redial", label)
+}
+
 func Spec() *core.Spec {
 
 	slog.SetDefault(slog.New(slog.NewTextHandler(io.Discard, nil)))
@@ -868,10 +1000,10 @@ func Spec() *core.Spec {
 		Rule: "scenario {Dial with version negotiation, call 1, call 2, call 3, Close, call after Close, Close again} against a scripted in-memory server; for EVERY I/O operation index 0..25 of the first connection (the scenario uses ~20) and every kind " +
 			"{read EOF, read on closed, read ECONNRESET, write EPIPE, write ECONNRESET, short write, server closes right after replying to request k, server closes right after reading request k} the scenario is rerun with that fault (later connections are fault-free); " +
 			"plus a server that drops the connection after reading the request 1..8 times in a row (transmission budget), dialer failures during reconnect, 4/8/16 concurrent callers with a fault, and directed schedules through the verif hooks (connection torn down between loading the tx channel and using it; caller gone while the write loop reports an error; Close during a call). " +
-			"Monitors: panic/crash, own-id response or error, never two consecutive failed calls, <= 4 transmissions per request, calls fail after Close, goroutine census after Close. a response whose frame-completing Read is handed over only when the connection is closed (call abandoned by cancel, deadline or Close); a write stalling past the caller's deadline; Dial losing its first connection and failing the negotiation on the second; two fault kinds that leave the peer healthy (io.ErrShortWrite; error after complete delivery); distinct = distinct (scenario kind, fault kind, operation index)",
+			"Monitors: panic/crash, own-id response or error, never two consecutive failed calls, <= 4 transmissions per request, calls fail after Close, goroutine census after Close. a response whose frame-completing Read is handed over only when the connection is closed (call abandoned by cancel, deadline or Close); Close() under a pending call on a transport whose Close is slow; a reconnection dial that stalls until the caller's deadline; a write stalling past the caller's deadline; Dial losing its first connection and failing the negotiation on the second; two fault kinds that leave the peer healthy (io.ErrShortWrite; error after complete delivery); distinct = distinct (scenario kind, fault kind, operation index)",
 		Assumptions: []string{"recovery rule used: while the server is reachable and new connections are fault-free, two consecutive calls never both fail (a call pending at, or first after, the fault may fail)",
 			"goroutines gone = none with a library frame within 10 s of closing the client and the server (bounded progress)"},
-		Required: []string{"calls", "late_responses_held", "stalled_writes", "negotiation_reconnects.second-connection-used", "double_faults_both_fired", "faults_fired.read-eof", "faults_fired.read-reset", "faults_fired.write-epipe", "faults_fired.short-write", "faults_fired.short-write-peer-stays", "faults_fired.write-error-after-delivery", "faults_fired.server-closes-after-reply", "faults_fired.server-closes-after-read",
+		Required: []string{"calls", "late_responses_held", "stalled_writes", "closes_under_a_call", "stalled_redials", "negotiation_reconnects.second-connection-used", "double_faults_both_fired", "faults_fired.read-eof", "faults_fired.read-reset", "faults_fired.write-epipe", "faults_fired.short-write", "faults_fired.short-write-peer-stays", "faults_fired.write-error-after-delivery", "faults_fired.server-closes-after-reply", "faults_fired.server-closes-after-read",
 			"census_checks", "calls_after_close", "repeated_drops.k4", "repeated_drops.k5", "dialer_failure_scenarios", "concurrent_scenarios", "directed.terminate-before-send-select", "directed.close-in-flight"},
 		Shards: func(string) int { return 8 },
 		Families: []core.Family{
@@ -883,6 +1015,18 @@ func Spec() *core.Spec {
 				}
 				return 120
 			}, Run: doubleFault, Timeout: 40 * time.Second},
+			{Name: "close-under-call", N: func(tier string) int {
+				if tier == core.Thorough {
+					return 600
+				}
+				return 20
+			}, Run: closeUnderCall, Timeout: 60 * time.Second},
+			{Name: "stalled-redial", N: func(tier string) int {
+				if tier == core.Thorough {
+					return 600
+				}
+				return 20
+			}, Run: stalledRedial, Timeout: 60 * time.Second},
 			{Name: "stalled-write", N: func(tier string) int {
 				if tier == core.Thorough {
 					return 1500
